@@ -1,6 +1,7 @@
 import IsoMdl.Model.Issuance
 import IsoMdl.Spec.Issuance
 import IsoMdl.Spec.Cddl
+import IsoMdl.Model.Wire
 namespace IsoMdl.Driver
 open IsoMdl IsoMdl.Cbor IsoMdl.Issuance
 
@@ -84,6 +85,21 @@ def cddlOp : List String → Option String
       p.map fun f => match decodeAll b with
         | some v => toString (f v)
         | none => "false"
+  | _ => none
+
+/-- C10: what the Tag24 model does with a received embedded item -/
+def tag24Op : List String → Option String
+  | ["c10.tag24", hex] => (bytesOfHex hex).map fun w =>
+      match (decodeAll w).bind (Wire.Tag24.fromCbor some) with
+      | none => "rejected"
+      | some t =>
+        match parseItem t.bytes with
+        | some it => s!"reemit={hexOrDash (enc t.toCbor)} id={it.digestId} random={hexOrDash it.random} ident={hexOrDash it.ident} value={hexOrDash (enc it.value)}"
+        | none => s!"reemit={hexOrDash (enc t.toCbor)} view=unparsed"
+  | ["c10.cose", hex] => (bytesOfHex hex).map fun w =>
+      match (decodeAll w).bind Wire.CoseSign1.fromCbor with
+      | none => "rejected"
+      | some c => s!"protected={hexOrDash c.protectedBytes} payload={match c.payload with | some p => hexOrDash p | none => "nil"} signature={hexOrDash c.signature} x5chain={match lookup (.uint 33) c.unprotected with | some v => hexOrDash (enc v) | none => "none"}"
   | _ => none
 
 def issuanceOp : List String → Option String
